@@ -11,7 +11,10 @@ P=tools/design_parts
   ./bin/gopkicheck -doc
   echo
   cat $P/05_na_changes.md
-  [ -f $P/08_seeded.md ] && cat $P/08_seeded.md
+  cat $P/08_seeded.md
+  python3 tools/mkseedtable.py
+  cat $P/08b_refactor.md
+  [ -f $P/08c_round_d.md ] && cat $P/08c_round_d.md
   cat $P/09_why.md $P/10_appendix.md
 } > DESIGN.md
 wc -l DESIGN.md
